@@ -129,8 +129,12 @@ def run(sh):
                         us2 = sel.universes(sel.atoms_of(sa + sb + su), nodes)
                         v = sel.subset_violation(us2, su, sa) or sel.subset_violation(us2, su, sb)
                         if v:
-                            sh.violation("unify-unsound:%s|%s" % (A, B), "selector-unify(%s, %s) = %s matches an element not matched by both\nelement #%d of DOM %s" % (A, B, ut, v[1], v[2]),
-                                         {"expr": exprs[ci * 6 + 2]}, {"A": A, "B": B, "out": ut, "dom": v[2]})
+                            # which complex selectors of the result are the unsound ones
+                            culprits = [sel.complex_text(cx) for cx in su
+                                        if sel.subset_violation(us2, [cx], sa) or sel.subset_violation(us2, [cx], sb)]
+                            sh.violation("unify-unsound:%s|%s" % (A, B), "selector-unify(%s, %s) = %s matches an element not matched by both (unsound members: %s)\nelement #%d of DOM %s" % (A, B, ut, "; ".join(culprits), v[1], v[2]),
+                                         {"expr": exprs[ci * 6 + 2]}, {"A": A, "B": B, "out": ut, "dom": v[2], "unsound_members": culprits,
+                                                                       "every_unsound_member_mixes_next_and_following_sibling": all(" + " in c and " ~ " in c for c in culprits) and bool(culprits)})
                         else:
                             sh.count("unify_sound")
             # 3. parse round trip
